@@ -316,7 +316,7 @@ Qed.
 Lemma errcode_item_parses : forall v, 0 <= v ->
   py_int errcodes_int_base (errcodes_fmt_prefix ++ fmt_hex errcodes_fmt_width errcodes_fmt_upper v) = Some v.
 Proof.
-  intros v Hv. unfold errcodes_int_base, errcodes_fmt_prefix, errcodes_fmt_width, errcodes_fmt_upper.
+  intros v Hv. unfold errcodes_int_base, errcodes_fmt_prefix, errcodes_fmt_width.
   unfold py_int. cbn [Z.eqb]. unfold fmt_hex. replace (v <? 0) with false by lia.
   rewrite zero_pad_digits.
   set (ds := (repeat 0 (Z.to_nat 2 - length (to_digits 16 v)) ++ to_digits 16 v)).
@@ -326,13 +326,13 @@ Proof.
   { unfold ds. pose proof (to_digits_nonempty 16 v). destruct (repeat 0 _); cbn; [assumption|discriminate]. }
   unfold py_int0. rewrite strip_num_noop.
   2:{ cbn [app]. constructor; [apply plain_48|]. constructor; [apply plain_120|].
-      apply (Forall_map_digit_plain false 16); [lia|exact Hr]. }
+      apply (Forall_map_digit_plain errcodes_fmt_upper 16); [lia|exact Hr]. }
   cbn [app with_sign]. replace (48 =? 43) with false by reflexivity. replace (48 =? 45) with false by reflexivity.
   cbn [py_int0_unsigned]. replace (negb (48 =? 48)) with false by reflexivity.
   replace ((120 =? 120) || (120 =? 88)) with true by reflexivity.
   unfold prefixed. destruct ds as [|d r] eqn:Hds; [contradiction|]. cbn [map].
   inversion Hr; subst. rewrite digit_char_not_us by lia.
-  change (digit_char false d :: map (digit_char false) r) with (map (digit_char false) (d :: r)).
+  change (digit_char errcodes_fmt_upper d :: map (digit_char errcodes_fmt_upper) r) with (map (digit_char errcodes_fmt_upper) (d :: r)).
   rewrite pdu_digits; [|lia|constructor; assumption|left; discriminate].
   f_equal. rewrite <- Hds. unfold ds. rewrite ofd_zeros. apply to_digits_value; lia.
 Qed.
@@ -341,10 +341,10 @@ Lemma errcode_item_plain : forall v, 0 <= v ->
   Forall plain (errcodes_fmt_prefix ++ fmt_hex errcodes_fmt_width errcodes_fmt_upper v) /\
   exists r, errcodes_fmt_prefix ++ fmt_hex errcodes_fmt_width errcodes_fmt_upper v = 48 :: r.
 Proof.
-  intros v Hv. unfold errcodes_fmt_prefix, errcodes_fmt_width, errcodes_fmt_upper, fmt_hex.
+  intros v Hv. unfold errcodes_fmt_prefix, errcodes_fmt_width, fmt_hex.
   replace (v <? 0) with false by lia. rewrite zero_pad_digits. split.
   - cbn [app]. constructor; [apply plain_48|]. constructor; [apply plain_120|].
-    apply (Forall_map_digit_plain false 16); [lia|].
+    apply (Forall_map_digit_plain errcodes_fmt_upper 16); [lia|].
     apply Forall_app. split; [apply Forall_forall; intros x Hx; apply repeat_spec in Hx; lia|apply to_digits_range; lia].
   - eexists. reflexivity.
 Qed.
